@@ -71,9 +71,10 @@ def plan(tier, seed):
     return [{'shard': i, 'configs': 48 if tier == 'quick' else 300, 'routes': 14} for i in range(n)]
 
 
-def build(k, routes_text):
+def build(k, routes_text, local='127.0.0.1'):
     pas = k['las'] if k['ibgp'] else (65009 if k['peer_asn4'] or True else 65009)
     text = exa.neighbor_text(
+        local=local,
         las=k['las'],
         pas=pas,
         families=FAMS,
@@ -342,7 +343,7 @@ def run_shard(desc):
                 continue
             try:
                 conf1, nb1, neg1, ref1, _ = build(k, [])  # fresh Adj-RIB-Out caches: the routes were sent once above
-                conf2, nb2, neg2, ref2, ctext2 = build(k2, [])
+                conf2, nb2, neg2, ref2, ctext2 = build(k2, [], local='127.0.0.9')  # its own local address: 'next-hop self' differs per neighbor
                 from exabgp.rib import RIB
 
                 if nb1.rib.outgoing is nb2.rib.outgoing:
@@ -362,7 +363,7 @@ def run_shard(desc):
                 res.violation(f'C01/shared-route-raises:{type(e).__name__}', f'announcing one route to two neighbors raised {type(e).__name__}: {str(e)[:160]}', {'sessions': [sname(k), sname(k2)], 'routes': [t for t, _ in routes]}, 'encode')
                 continue
             for name, (decs2, refx, kx) in both.items():
-                sx = {'ibgp': kx['ibgp'], 'local_as': kx['las'], 'asn4': refx['asn4'], 'local_addr': '127.0.0.1', 'addpath_send': refx['addpath_send']}
+                sx = {'ibgp': kx['ibgp'], 'local_as': kx['las'], 'asn4': refx['asn4'], 'local_addr': '127.0.0.9' if kx is k2 else '127.0.0.1', 'addpath_send': refx['addpath_send']}
                 for d in decs2:
                     if 'error' in d:
                         res.violation('C01/undecodable-update', d['error'], {'session': name, 'shared_with': sorted(both), 'raw': d.get('raw', '')}, 'encode')
